@@ -3392,6 +3392,146 @@ async def cx_dual_bounded(w):
             "failures": failures, "reproduced": bool(failures)}
 
 
+# ---------------------------------------------------------------------------------------------------------
+# C16: random sequences of state-variable statements through the real interpreter against a map model
+# ---------------------------------------------------------------------------------------------------------
+async def c16_random_bounded(w):
+    """Bounded stand-in for the routing of state variables through the interpreter: random sequences of the documented ways
+    to read, write and delete state variables and attributes (assignment, attribute assignment, del, state.set with
+    new_attributes / keywords / value omitted, state.setattr, state.delete, state.get, state.getattr, state.exist, snapshots in
+    local variables) run as pyscript source against a fake Home Assistant state table; after every statement the table and the
+    recorded results must equal those of a map model written from the documentation."""
+    import random
+    await boot_full()
+    hass = (await boot())  # fresh tables
+    hass = await boot_full()
+    table = fake_states(hass)
+    rng = random.Random(1616 + int(w.get("seed", 0)))
+    n = int(w.get("programs", 150))
+    failures, cases, nontriv, samples = [], 0, set(), []
+    ents = ["pyscript.x", "pyscript.y"]
+    attrs = ["a", "b"]
+    for pi in range(n):
+        table.clear()
+        model = {}
+        lines, expect = [], []
+
+        def val():
+            return rng.choice([1, 7, "on", "off", 3.5])
+
+        for k in range(rng.randrange(3, 9)):
+            e, at = rng.choice(ents), rng.choice(attrs)
+            op = rng.choice(["assign", "assign", "attr-assign", "set-new", "set-kw", "set-attrs-only", "setattr", "del", "del-attr", "delete", "delete-attr",
+                             "get", "get-attr", "read", "read-attr", "getattr", "exist", "exist-attr", "snapshot"])
+            i = len(lines)
+            if op == "assign":
+                v = val()
+                lines.append(f"{e} = {v!r}")
+                model[e] = (str(v), dict(model.get(e, (None, {}))[1]))
+                expect.append(None)
+            elif op == "attr-assign":
+                v = val()
+                lines.append(f"try:\n    {e}.{at} = {v!r}\n    r{i} = 'ok'\nexcept Exception as ex:\n    r{i} = type(ex).__name__")
+                if e in model:
+                    model[e][1][at] = v
+                    expect.append("ok")
+                else:
+                    expect.append("NameError")
+            elif op == "set-new":
+                v, na = val(), {at: val()}
+                lines.append(f"state.set({e!r}, {v!r}, new_attributes={na!r})")
+                model[e] = (str(v), dict(na))
+                expect.append(None)
+            elif op == "set-kw":
+                v, kv = val(), val()
+                lines.append(f"state.set({e!r}, {v!r}, {at}={kv!r})")
+                old = dict(model.get(e, (None, {}))[1])
+                old[at] = kv
+                model[e] = (str(v), old)
+                expect.append(None)
+            elif op == "set-attrs-only":
+                if e not in model:
+                    continue      # value omitted for a variable that does not exist: not documented, not generated
+                kv = val()
+                lines.append(f"try:\n    state.set({e!r}, {at}={kv!r})\n    r{i} = 'ok'\nexcept Exception as ex:\n    r{i} = type(ex).__name__")
+                if e in model:
+                    model[e][1][at] = kv
+                    expect.append("ok")
+                else:
+                    expect.append("?")      # value omitted for a variable that does not exist: not documented
+            elif op == "setattr":
+                kv = val()
+                lines.append(f"try:\n    state.setattr('{e}.{at}', {kv!r})\n    r{i} = 'ok'\nexcept Exception as ex:\n    r{i} = type(ex).__name__")
+                if e in model:
+                    model[e][1][at] = kv
+                    expect.append("ok")
+                else:
+                    expect.append("NameError")
+            elif op in ("del", "delete"):
+                stmt = f"del {e}" if op == "del" else f"state.delete({e!r})"
+                lines.append(f"try:\n    {stmt}\n    r{i} = 'ok'\nexcept Exception as ex:\n    r{i} = type(ex).__name__")
+                if e in model:
+                    del model[e]
+                    expect.append("ok")
+                else:
+                    expect.append("NameError")
+            elif op in ("del-attr", "delete-attr"):
+                stmt = f"del {e}.{at}" if op == "del-attr" else f"state.delete('{e}.{at}')"
+                lines.append(f"try:\n    {stmt}\n    r{i} = 'ok'\nexcept Exception as ex:\n    r{i} = type(ex).__name__")
+                if e in model and at in model[e][1]:
+                    del model[e][1][at]
+                    expect.append("ok")
+                elif e in model:
+                    expect.append("AttributeError")
+                else:
+                    expect.append("NameError")
+            elif op in ("get", "read"):
+                expr = f"state.get({e!r})" if op == "get" else e
+                lines.append(f"try:\n    r{i} = str({expr})\nexcept Exception as ex:\n    r{i} = type(ex).__name__")
+                expect.append(model[e][0] if e in model else "NameError")
+            elif op in ("get-attr", "read-attr"):
+                expr = f"state.get('{e}.{at}')" if op == "get-attr" else f"{e}.{at}"
+                lines.append(f"try:\n    r{i} = {expr}\nexcept Exception as ex:\n    r{i} = type(ex).__name__")
+                expect.append(model[e][1][at] if e in model and at in model[e][1] else ("AttributeError" if e in model else "NameError"))
+            elif op == "getattr":
+                lines.append(f"r{i} = state.getattr({e!r})")
+                expect.append(dict(model[e][1]) if e in model else None)
+            elif op == "exist":
+                lines.append(f"r{i} = state.exist({e!r})")
+                expect.append(e in model)
+            elif op == "exist-attr":
+                lines.append(f"r{i} = state.exist('{e}.{at}')")
+                expect.append(e in model and at in model[e][1])
+            elif op == "snapshot":
+                # a snapshot keeps value and attributes of the time it was taken, whatever happens afterwards
+                v = val()
+                lines.append(f"try:\n    snap = {e}\n    {e} = {v!r}\n    r{i} = (str(snap), snap.{at})\nexcept Exception as ex:\n    r{i} = type(ex).__name__")
+                if e in model:
+                    exp = (model[e][0], model[e][1][at]) if at in model[e][1] else "AttributeError"
+                    model[e] = (str(v), dict(model[e][1]))
+                    expect.append(exp)
+                else:
+                    expect.append("NameError")
+        src = "\n".join(lines) + "\n"
+        g, a, exc = await run_source(f"file.c16r_{pi}", src)
+        cases += 1
+        got = [g.global_sym_table.get(f"r{i}") if expect[i] is not None or f"r{i}" in g.global_sym_table else None for i in range(len(lines))]
+        got = [tuple(x) if isinstance(x, (list, tuple)) else x for x in got]
+        exp2 = [tuple(x) if isinstance(x, (list, tuple)) else x for x in expect]
+        final = {k: (v[0], v[1]) for k, v in table.items()}
+        want_final = {k: (v[0], v[1]) for k, v in model.items()}
+        ok = exc is None and final == want_final and all(e2 == "?" or g2 == e2 for g2, e2 in zip(got, exp2))
+        nontriv.add(tuple(l.split("\n")[0][:20] for l in lines))
+        if len(samples) < 2:
+            samples.append({"source": src, "expected_results": [str(x) for x in expect], "expected_table": {k: list(v) for k, v in want_final.items()}})
+        if not ok and len(failures) < int(w.get("max_failures", 3)):
+            failures.append({"signature": f"c16-random:{src!r}", "source": src, "error": repr(exc) if exc else None, "observed_results": [str(x) for x in got],
+                             "expected_results": [str(x) for x in exp2], "observed_table": {k: list(v) for k, v in final.items()}, "expected_table": {k: list(v) for k, v in want_final.items()}})
+    await shutdown()
+    return {"unit": "state variables through the interpreter", "method": "random statement sequences vs a map model of the documentation", "bound": f"{n} programs of 3-8 statements over 2 entities x 2 attributes, seeded",
+            "cases": cases, "distinct_nontrivial": len(nontriv), "samples": samples, "failures": failures, "reproduced": bool(failures)}
+
+
 async def c04_classification_bounded(w):
     """Bounded stand-in for the regular expression that splits @state_trigger arguments into any-change names and
     expressions (STATE_RE in trigger.py and decorators/state.py): strings from a small alphabet, classified by the REAL
